@@ -89,6 +89,23 @@ CHECKS["C18"] = {
     "bounds": {"quick": "real sizes: openvpn 1/14/38-86/54/343-1077/290-1024 bytes (+2), wireguard 148/32+, rdp 4/7/8/36/11+, winbox <= 44", "thorough": "winbox <= 300 (two chunks)"},
 }
 
+CHECKS["C10"] = {
+    "harnesses": [
+        H("c10.VH_first", {"N": 4}, {"N": 6}, covers=["one selected", "none selected"]),
+        H("c10.VH_least_conn", {"N": 3}, {"N": 5}, covers=["one selected", "none selected"], weight=2),
+        H("c10.VH_random", {"N": 3}, {"N": 5}, covers=["one selected", "none selected"]),
+        H("c10.VH_random_choose", {"N": 3}, {"N": 4}, covers=["one selected", "none selected"], weight=2),
+        H("c10.VH_round_robin", {"N": 3}, {"N": 4}, covers=["one selected", "none selected", "cycle of two or more"], weight=4),
+        H("c10.VH_round_robin_wrap", {"N": 3}, {"N": 3}, covers=[], weight=3),
+        H("c10.VH_ip_hash", {"N": 3}, {"N": 4}, covers=["one selected", "none selected", "leaver"], weight=3, validate=False),
+    ],
+    "level_text": "bounded model checking of every selection policy's real Select on pools of 0..N upstreams whose per-peer health/failure/connection state, limits, random draws, round-robin counter and hash values are symbolic; the oracle is a reference availability predicate written from the documentation (not the repository's available()), plus the per-policy contract",
+    "level_note": "pool size bounded (quick 0..3/4, thorough up to 4..6); numConns/fails/max_connections in 0..2; one upstream may have two peers; math/rand draws are arbitrary values in their documented range; ip_hash's FNV hash is replaced by an arbitrary deterministic function (uninterpreted), which over-approximates the real hash; round_robin counter = base + 8 symbolic bits",
+    "assumptions": ["math/rand.Int/Intn return any value of their documented range", "l4proxy.hash replaced by an arbitrary deterministic function of its argument", "round-robin counter start = {0, 0x7FFFFF00, 0xFFFFF000, 0xFFFFFF00(wrap harness)} + 8 symbolic bits"],
+    "outside": ["pools larger than the bound", "selection sequences longer than one cycle", "concurrent selections (see C08)"],
+    "bounds": {"quick": "pool 0..3 (first 0..4)", "thorough": "pool 0..4..6"},
+}
+
 NOT_APPLICABLE = {
     "C15": "Caddyfile->JSON adaptation and JSON round-trip run through the Caddyfile lexer, encoding/json reflection and Caddy's module loader over an unbounded configuration grammar; this cannot be encoded by a hand-written go/ssa symbolic executor (reflection refused, inputs are programs of a grammar, not bounded bytes/integers)",
 }
